@@ -133,11 +133,21 @@ EXPR_TEMPLATES = ["%Size() > 0", "%Name() +", "%Size() + 'x'", "1/0", "%Size() i
                   "100 / %Size() > 1", "%Size() > 0 or 1/0", "%Name() != 'a.txt' or 10 // %Size()",
                   # two criteria: the values that cannot be compared belong to two LATER files that tie on the first criterion
                   "%Size(), %Name() if %Name() != 'e.txt' else 0", "%Ext(), %Size() if %Name() != 'b.txt' else None",
-                  "len(%Name()), None if %Name() == 'd.txt' else %Size()"]
+                  "len(%Name()), None if %Name() == 'd.txt' else %Size()",
+                  # expressions that parse but are refused by a later stage of compile() (symbol table, code generation): the
+                  # SyntaxError carries no source text; and other exception classes eval() can end with
+                  "(yield)", "(await %Size())", "[(x := 1) for x in [%Size()]]", "len(__debug__=%Size())", "(yield from [%Size()])",
+                  "[*%Size()]", "f'{%Size()!x}'", "%Size()()", "%Name()[99]", "int(%Name())", "{}[%Size()]", "[].pop()",
+                  "(lambda: (yield))() and 0 or %Size() + ''", "__import__('nope_' + %Name())", "exit()",
+                  "'\\udc80'.encode() or %Size()", "(" * 120 + "%Size()" + ")" * 120]
 
 
 def gen_cli(rng, n, tier):
-    for _ in range(n):
+    # every listed expression once in each expression position, whatever the seed
+    for t in EXPR_TEMPLATES:
+        for position in ("filter", "sort"):
+            yield {"t": t, "position": position, "aliases": []}
+    for _ in range(max(0, n - 2 * len(EXPR_TEMPLATES))):
         position = rng.choice(POSITIONS)
         r = rng.random()
         if r < 0.35:
